@@ -87,7 +87,9 @@ def build(C):
         sx, sA = C["secx"]                           # A'(x) = sA * A(x / sx): mirrored (sx=-1) or rescaled section
         sec = lambda x, base=base, sx=sx, sA=sA: sA * base(np.asarray(x, dtype=float) / sx)
         import flowdyn.modelphy.euler as euler
+        cases._decoy_models("nozzle", "before")
         model = euler.nozzle(sec, gamma=C["gamma"], source=cases.build_sources(C["source"]))
+        cases._decoy_models("nozzle", "after")
     else:
         if C["source"] is not None and name in ("euler1d", "shallowwater"):
             md["source"] = C["source"]
